@@ -10,6 +10,7 @@ Driver for C08.
       V_0..V_k (n_i×t_i), V'_0..V'_k (m_i×t_i)
       scalars: Z/F<p>: integer;  Q: `n/d`;  ZH: `c0,c1,…` (coefficients of 1, H, H², …)
     reply:  `<verdict> H=<homology of the given complex>|<homology of the reduced complex>`
+      (`redn …`: same request, reply `<verdict> heq` / `<verdict> hne:<h>|<h'>` — only whether the two agree)
       verdict = `ok` (the verified checker `C08.check` accepted) or `fail:<first failing clause>`
       homology: Z: per degree `rank[:t1:t2…]`;  Q, F<p>: Betti numbers;  ZH: `-`
 
@@ -107,17 +108,22 @@ def primeTag? (s : String) : Option Nat :=
     | none => none
   else none
 
-def handleRed (ring : String) (toks : Array String) : String :=
+/-- `cmpOnly = false` (`red`): print both homologies; `cmpOnly = true` (`redn`): only whether they agree
+(used when the library cannot compute the homology of the unreduced complex itself) -/
+def hpart (cmpOnly : Bool) (h0 h1 : String) : String :=
+  if cmpOnly then (if h0 == h1 then "heq" else s!"hne:{h0}|{h1}") else s!"H={h0}|{h1}"
+
+def handleRed (cmpOnly : Bool) (ring : String) (toks : Array String) : String :=
   if ring == "Z" then
     match parseRed (α := Int) (·.toInt?) toks with
     | none => "bad-request"
     | some x =>
-      s!"{verdict (eqMod 0) x} H={homZ x.k x.nn x.dd}|{homZ x.k x.mm x.dr}"
+      s!"{verdict (eqMod 0) x} {hpart cmpOnly (homZ x.k x.nn x.dd) (homZ x.k x.mm x.dr)}"
   else if ring == "Q" then
     match parseRed (α := Rat) parseRat? toks with
     | none => "bad-request"
     | some x =>
-      s!"{verdict (fun a b => a == b) x} H={homQ x.k x.nn x.dd}|{homQ x.k x.mm x.dr}"
+      s!"{verdict (fun a b => a == b) x} {hpart cmpOnly (homQ x.k x.nn x.dd) (homQ x.k x.mm x.dr)}"
   else if ring == "ZH" then
     match parseRed (α := Poly) parsePoly? toks with
     | none => "bad-request"
@@ -127,7 +133,7 @@ def handleRed (ring : String) (toks : Array String) : String :=
       match parseRed (α := Int) (·.toInt?) toks with
       | none => "bad-request"
       | some x =>
-        s!"{verdict (eqMod p) x} H={homP p x.k x.nn x.dd}|{homP p x.k x.mm x.dr}"
+        s!"{verdict (eqMod p) x} {hpart cmpOnly (homP p x.k x.nn x.dd) (homP p x.k x.mm x.dr)}"
     | none => "bad-request"
 
 def handleHom (ring : String) (toks : Array String) : String :=
@@ -172,7 +178,8 @@ def handleSchur (ring ul : String) (toks : Array String) : String :=
 
 def handle (t : List String) : String :=
   match t with
-  | "red" :: ring :: rest => handleRed ring rest.toArray
+  | "red" :: ring :: rest => handleRed false ring rest.toArray
+  | "redn" :: ring :: rest => handleRed true ring rest.toArray
   | "hom" :: ring :: rest => handleHom ring rest.toArray
   | "schur" :: ring :: ul :: rest => handleSchur ring ul rest.toArray
   | _ => "bad-request"
